@@ -22,7 +22,7 @@ extern "C" int __lsan_do_recoverable_leak_check();
 using namespace vh;
 
 namespace {
-struct Tally { long long threshold = 0, factory_calls = 0, strings = 0, string_bytes = 0, pools = 0, printed_bytes = 0, units = 0, regions = 0, steps = 0; };
+struct Tally { long long exact_fills = 0, threshold = 0, factory_calls = 0, strings = 0, string_bytes = 0, pools = 0, printed_bytes = 0, units = 0, regions = 0, steps = 0; };
 
 // the workload of one Lexicon life; everything it allocates dies with this scope
 void one_life(std::uint64_t seed, int flavour, Tally& T)
@@ -136,6 +136,26 @@ void two_overlapping_lives(std::uint64_t seed, Tally& T)
    sb.reset(); ub.reset(); lb.reset();
 }
 
+// a Lexicon whose string pools are filled exactly to their last granule: by one word of 2^20 - 8 bytes interned first, and
+// by 8-byte words only (one granule each) until two pools have rolled over; then destroyed
+void exact_fill_life(std::uint64_t seed, int variant, Tally& T)
+{
+   Rng rng(seed);
+   impl::Lexicon lex;
+   if (variant % 2 == 0) {
+      std::string w((std::size_t(1) << 20) - 8, char('a' + seed % 26));
+      lex.get_string(widen(w)); ++T.strings; T.string_bytes += (long long)w.size();
+      for (int i = 0; i < 50; ++i) { lex.get_identifier(widen("after" + std::to_string(i))); ++T.strings; }
+   } else {
+      char buf[9];
+      for (int i = 0; i < 140000; ++i) { std::snprintf(buf, sizeof buf, "%08x", unsigned(i) * 2654435761u); lex.get_string(util::word_view(reinterpret_cast<const char8_t*>(buf), 8)); }
+      T.strings += 140000; T.string_bytes += 8 * 140000;
+   }
+   const auto& arena = Inspector::arena(Inspector::strings(static_cast<const impl::name_factory&>(lex)));
+   T.pools += Inspector::arena_pools(arena);
+   ++T.exact_fills;
+}
+
 // keys for the leak report blocks this process has written so far (log_path=$VERIF_OUTDIR/san.<pid>)
 std::vector<std::pair<std::string, std::string>> leak_keys(std::size_t& consumed)
 {
@@ -188,7 +208,7 @@ static void body(Ctx& C)
 #if VH_HAVE_ASAN
       const std::size_t b0 = __sanitizer_get_current_allocated_bytes();
 #endif
-      if (flavour % 5 == 4) two_overlapping_lives(seed, T); else one_life(seed, flavour, T);      // (nothing of the harness's own is allocated between the two readings)
+      if (flavour % 5 == 4) two_overlapping_lives(seed, T); else if (flavour % 7 == 6) exact_fill_life(seed, flavour / 7, T); else one_life(seed, flavour, T);      // (nothing of the harness's own is allocated between the two readings)
 #if VH_HAVE_ASAN
       const std::size_t b1 = __sanitizer_get_current_allocated_bytes();
       const int leaked = __lsan_do_recoverable_leak_check();
@@ -213,9 +233,9 @@ static void body(Ctx& C)
       if (C.total_viols >= 12 && i >= 3) { C.count("stopped_early_after_repeated_violations"); break; }
    }
    C.count("factory_calls", T.factory_calls); C.count("strings_interned", T.strings); C.count("string_bytes", T.string_bytes); C.count("string_pools_at_destruction", T.pools);
-   C.count("printed_bytes", T.printed_bytes); C.count("extra_units_and_module_units", T.units); C.count("nested_regions", T.regions); C.count("program_steps", T.steps); C.count("strings_at_allocator_threshold_lengths", T.threshold);
+   C.count("printed_bytes", T.printed_bytes); C.count("extra_units_and_module_units", T.units); C.count("nested_regions", T.regions); C.count("program_steps", T.steps); C.count("strings_at_allocator_threshold_lengths", T.threshold); C.count("lives_filling_string_pools_exactly", T.exact_fills);
    for (auto k : { "lexicon_lives", "factory_calls", "strings_interned", "string_pools_at_destruction", "printed_bytes", "extra_units_and_module_units", "nested_regions", "program_steps" }) C.need(k);
-   C.need("overlapping_lexicon_pairs");
+   C.need("overlapping_lexicon_pairs"); C.need("lives_filling_string_pools_exactly");
    if (!valgrind_mode) { C.need("byte_accounting_checks"); C.need("lsan_checks"); }
 }
 
